@@ -71,7 +71,7 @@ P = {
                   "TLC-enumerated fault scenarios run on a real client with the reconnect option behind a message-boundary aware fault-injecting proxy "
                   "(cut after / inside the k-th message of a direction, in steady state and again while reconnecting; silent peer + inactivity probe; "
                   "transactions by others while away; Transact calls in flight; the proxy's since mode turns the built-in server into one that remembers "
-                  "transaction ids) and TraceTxn.tla judges convergence of the cache and the "
+                  "transaction ids: any id issued since the contents last went out in full is answered with found = true and what followed is sent again) and TraceTxn.tla judges convergence of the cache and the "
                   "exactly-once / at-most-once outcome of every marked Transact call.",
              note="Trusted: TLC, the proxy; convergence is awaited for 15 s. Leader-only endpoint selection is not exercised yet (see DESIGN.md).",
              tech="TLC model checking of Reconn.tla + fault-injection replay of enumerated scenarios + TLC trace validation"),
@@ -111,7 +111,8 @@ P = {
                   "mutator, sets, maps, uuids and named uuids over every atomic type, rows, both update formats, monitor requests, selects and replies, results "
                   "and errors, schemas with every base-type constraint, min/max/unlimited, ephemeral, mutable, isRoot, indexes) and a type-directed meaning "
                   "relation Eq whose laws TLC checks; every valid encoding of the bounded grammar is decoded, encoded and decoded again by the real codecs and "
-                  "TraceWire.tla demands Eq(encoding, re-encoding) and equal decoded values; error results go through the typed errors and back.",
+                  "TraceWire.tla demands Eq(encoding, re-encoding) and equal decoded values - also when the value is handed to the encoder by value or inside a "
+                  "parameter list; error results go through the typed errors and back.",
              note="Trusted: TLC, the typed-tree rendering of JSON. Values start from decodings of valid encodings; nil and empty collections are one value; in "
                   "schema-less positions a one-element set is its element. Known finding: integers beyond 2^53.",
              tech="TLA+ grammar and meaning relation (Wire.tla) + exhaustive enumerate-and-replay through the codecs + TLC trace validation"),
@@ -120,7 +121,8 @@ P = {
                   "appended) and every small tree over the keyword atoms; each is handed to the decoders under recover (decoded values are also encoded); "
                   "corrupted transactions (dropped members, swapped kinds, every arithmetic mutator with 0) run on the transaction engine and as raw requests "
                   "followed by an echo on a real server, a crash of the process being attributed to the request in flight; sound, foreign (unknown table / "
-                  "column, ill-typed, null rows) and corrupted update / update2 / update3 notifications are sent to a real client through the proxy; TraceWire.tla "
+                  "column, ill-typed, null rows, row updates with several members or none) and corrupted update / update2 / update3 notifications, and the same "
+                  "trees as the contents of monitor replies, are sent to a real client through the proxy; TraceWire.tla "
                   "accepts value/error, results/error and a live server / a working client only.",
              note="Trusted: TLC; encoding/json rejects non-JSON bytes before libovsdb code runs, so trees suffice. Long or deeply nested inputs and coverage-guided "
                   "byte fuzzing are outside this technique (bounded exhaustive enumeration instead).",
